@@ -316,6 +316,9 @@ Lemma iwf_upd_same l s G y : nth_error l s = Some y -> iname' (G y) = iname' y -
   used_names (upd_nth l s G) = used_names l.
 Proof. intros Hn Hg. rewrite (used_names_upd l s G y Hn), Hg. symmetry. apply used_names_split. assumption. Qed.
 
+Lemma NoDup_app_tail {A} (a b : list A) : NoDup (a ++ b) -> NoDup b.
+Proof. induction a as [|x a IH]; intros H; [assumption|]. inversion H; subst. apply IH. assumption. Qed.
+
 Lemma NoDup_remove_mid {A} (a b c : list A) : NoDup (a ++ b ++ c) -> NoDup (a ++ c).
 Proof.
   induction b as [|x b IH]; intros H; [assumption|]. apply IH.
@@ -332,4 +335,377 @@ Proof.
       * apply Hn. left. congruence.
       * apply H1. apply in_or_app. right. assumption.
     + apply IH; [assumption|]. intros Hi. apply Hn. right. assumption.
+Qed.
+
+(* ---- upd_gen, one level at a time ---- *)
+Lemma upd_gen_cons (L L' : key -> entry) n q ov k' :
+  L (n :: k') = L' k' -> upd_gen L (n :: q) ov (n :: k') = upd_gen L' q ov k'.
+Proof.
+  intros H. unfold upd_gen. rewrite key_proper_prefix_cons. cbn [key_eqb].
+  rewrite bytes_eqb_refl, H. reflexivity.
+Qed.
+
+Lemma upd_gen_head (L : key -> entry) n q ov : q <> [] -> upd_gen L (n :: q) ov [n] = touch (L [n]).
+Proof.
+  intros Hq. unfold upd_gen, key_proper_prefix. cbn. rewrite bytes_eqb_refl.
+  destruct q; [congruence|reflexivity].
+Qed.
+
+Lemma upd_gen_single (L : key -> entry) n ov k' : k' <> [] -> upd_gen L [n] ov (n :: k') = L (n :: k').
+Proof.
+  intros Hk. unfold upd_gen, key_proper_prefix. cbn. rewrite bytes_eqb_refl.
+  destruct k'; [congruence|reflexivity].
+Qed.
+
+Lemma upd_gen_diff (L : key -> entry) n n' q ov k' : bytes_eqb n n' = false ->
+  upd_gen L (n :: q) ov (n' :: k') = L (n' :: k').
+Proof.
+  intros H. unfold upd_gen. cbn [key_eqb]. rewrite bytes_eqb_sym, H. cbn [andb].
+  rewrite key_proper_prefix_diff by (rewrite bytes_eqb_sym; assumption). reflexivity.
+Qed.
+
+Lemma item_match_iff x n nm : iname' x = Some n -> item_match x nm = bytes_eqb n nm.
+Proof. intros H. unfold item_match. rewrite H. reflexivity. Qed.
+
+Lemma iupd_at_cons a i t g : t <> [] ->
+  iupd_at a (i :: t) g = upd_nth a i (fun x => Item (iname' x) (ival' x) (iupd_at (ielems' x) t g)).
+Proof. destruct t; [congruence|reflexivity]. Qed.
+
+Lemma ifind_first n a i x : ifind n a 0 = Some (i, x) -> ifind n a 0 = Some (0 + i, x) /\
+  nth_error a i = Some x /\ iname' x = Some n.
+Proof.
+  intros H. destruct (ifind_spec _ _ _ _ _ H) as (_ & H2 & H3 & _). rewrite Nat.sub_0_r in H2. auto.
+Qed.
+
+(* replacing the value of an existing item *)
+Lemma ilook_setval : forall a q t x, itrail_of a q t x -> forall v k, k <> [] ->
+  ilook (iupd_at a t (fun y => Item (iname' y) v (ielems' y))) k = upd_gen (ilook a) q (Some v) k.
+Proof.
+  induction 1 as [a n i x Hf | a n m i x t y Hf Hm Ht IH]; intros v k Hk;
+    destruct (ifind_first _ _ _ _ Hf) as (Hf0 & Hn & Hname); destruct k as [|n' k']; try congruence.
+  - cbn [iupd_at ilook].
+    match goal with |- context [upd_nth a i ?GG] => rewrite (ifind_upd_same a i 0 GG n x Hf0 (fun w => eq_refl) n') end.
+    rewrite (item_match_iff x n n' Hname).
+    destruct (bytes_eqb n n') eqn:E.
+    + apply bytes_eqb_eq in E. subst n'. cbn [ival' ielems'].
+      destruct k' as [|b k'].
+      * unfold upd_gen. cbn. rewrite bytes_eqb_refl. reflexivity.
+      * rewrite upd_gen_single by discriminate. cbn [ilook]. rewrite Hf. reflexivity.
+    + rewrite upd_gen_diff by assumption. reflexivity.
+  - destruct (itrail_nonnil _ _ _ _ Ht) as [_ Htn]. rewrite iupd_at_cons by assumption. cbn [ilook].
+    match goal with |- context [upd_nth a i ?GG] => rewrite (ifind_upd_same a i 0 GG n x Hf0 (fun w => eq_refl) n') end.
+    rewrite (item_match_iff x n n' Hname).
+    destruct (bytes_eqb n n') eqn:E.
+    + apply bytes_eqb_eq in E. subst n'. cbn [ival' ielems'].
+      destruct k' as [|b k'].
+      * rewrite upd_gen_head by assumption. cbn [ilook]. rewrite Hf. reflexivity.
+      * rewrite (IH v (b :: k')) by discriminate. symmetry. apply upd_gen_cons. cbn [ilook]. rewrite Hf. reflexivity.
+    + rewrite upd_gen_diff by assumption. reflexivity.
+Qed.
+
+Lemma ifind_in_used nm l i j x : ifind nm l i = Some (j, x) -> In nm (used_names l).
+Proof.
+  intros H. destruct (ifind_spec _ _ _ _ _ H) as (_ & Hn & Hname & _).
+  apply in_used_names. exists x. split; [eapply nth_error_In; eauto|assumption].
+Qed.
+
+Lemma ifind_notin nm l i : ~ In nm (used_names l) -> ifind nm l i = None.
+Proof.
+  intros H. destruct (ifind nm l i) as [[j x]|] eqn:E; [|reflexivity].
+  exfalso. apply H. eapply ifind_in_used; eauto.
+Qed.
+
+(* marking the found slot unused *)
+Lemma ifind_upd_unuse l : forall s i0 G nm0 y,
+  ifind nm0 l i0 = Some (i0 + s, y) -> iname' (G y) = None -> NoDup (used_names l) ->
+  forall nm, ifind nm (upd_nth l s G) i0 = if item_match y nm then None else ifind nm l i0.
+Proof.
+  induction l as [|x l IH]; intros s i0 G nm0 y Hf HG Hd nm; [discriminate|].
+  cbn in Hf. destruct (item_match x nm0) eqn:E0.
+  - inversion Hf as [[Hs Hx]]. assert (s = 0) by lia. subst s x. cbn.
+    unfold item_match at 1. rewrite HG.
+    destruct (item_match y nm) eqn:Ey; [|reflexivity].
+    apply item_match_name in Ey. apply ifind_notin.
+    unfold used_names in Hd. cbn [flat_map] in Hd. rewrite Ey in Hd. cbn in Hd. inversion Hd; assumption.
+  - destruct s as [|s].
+    + destruct (ifind_spec _ _ _ _ _ Hf) as (Hle & _). lia.
+    + cbn. replace (i0 + S s) with (S i0 + s) in * by lia.
+      assert (Hd' : NoDup (used_names l)).
+      { unfold used_names in *. cbn [flat_map] in Hd. apply NoDup_app_tail in Hd. assumption. }
+      rewrite (IH s (S i0) G nm0 y Hf HG Hd' nm).
+      destruct (item_match x nm) eqn:E; [|reflexivity].
+      destruct (item_match y nm) eqn:Ey; [|reflexivity].
+      (* two used slots with the same name *)
+      exfalso. apply item_match_name in E. apply item_match_name in Ey.
+      unfold used_names in Hd. cbn [flat_map] in Hd. rewrite E in Hd. cbn in Hd. inversion Hd as [|? ? Hnotin _]; subst.
+      apply Hnotin. apply in_used_names. exists y. split; [|assumption].
+      destruct (ifind_spec _ _ _ _ _ Hf) as (_ & Hn & _). eapply nth_error_In; eauto.
+Qed.
+
+Lemma iwf_elems a i x : iwf a -> nth_error a i = Some x -> iwf (ielems' x).
+Proof.
+  intros [_ Hall] Hn. apply iwfi_unfold. rewrite Forall_forall in Hall. apply Hall. eapply nth_error_In; eauto.
+Qed.
+
+Lemma ilook_unuse : forall a q t x, itrail_of a q t x -> iwf a ->
+  forall G, iname' (G x) = None ->
+  forall k, ilook (iupd_at a t G) k = if key_prefix q k then Absent else ilook a k.
+Proof.
+  induction 1 as [a n i x Hf | a n m i x t y Hf Hm Ht IH]; intros Hwf G HG k;
+    destruct (ifind_first _ _ _ _ Hf) as (Hf0 & Hn & Hname); destruct k as [|n' k']; try reflexivity.
+  - cbn [iupd_at ilook key_prefix].
+    rewrite (ifind_upd_unuse a i 0 G n x Hf0 HG (proj1 Hwf) n'), (item_match_iff x n n' Hname).
+    destruct (bytes_eqb n n') eqn:E; [destruct k'; reflexivity|reflexivity].
+  - destruct (itrail_nonnil _ _ _ _ Ht) as [_ Htn]. rewrite iupd_at_cons by assumption.
+    cbn [ilook key_prefix].
+    match goal with |- context [upd_nth a i ?GG] => rewrite (ifind_upd_same a i 0 GG n x Hf0 (fun w => eq_refl) n') end.
+    rewrite (item_match_iff x n n' Hname).
+    destruct (bytes_eqb n n') eqn:E; [|reflexivity].
+    apply bytes_eqb_eq in E. subst n'. cbn [ival' ielems' andb].
+    destruct k' as [|b k'].
+    + destruct m; [congruence|]. cbn [key_prefix ilook]. rewrite Hf. reflexivity.
+    + rewrite (IH (iwf_elems a i x Hwf Hn) G HG (b :: k')). cbn [ilook]. rewrite Hf. reflexivity.
+Qed.
+
+Lemma Forall_upd_nth_item (P : item -> Prop) l s G y :
+  Forall P l -> nth_error l s = Some y -> P (G y) -> Forall P (upd_nth l s G).
+Proof.
+  intros Hf Hn Hg. apply Forall_upd_nth; [assumption|]. intros k Hk _. congruence.
+Qed.
+
+Lemma iwf_upd_at_same : forall a q t x, itrail_of a q t x -> iwf a ->
+  forall G, iname' (G x) = iname' x -> (iwfi x -> iwfi (G x)) -> iwf (iupd_at a t G).
+Proof.
+  induction 1 as [a n i x Hf | a n m i x t y Hf Hm Ht IH]; intros [Hd Hall] G HG HW;
+    destruct (ifind_first _ _ _ _ Hf) as (_ & Hn & Hname).
+  - cbn [iupd_at]. split; [rewrite (iwf_upd_same a i G x Hn HG); assumption|].
+    eapply Forall_upd_nth_item; eauto. apply HW. rewrite Forall_forall in Hall. apply Hall. eapply nth_error_In; eauto.
+  - destruct (itrail_nonnil _ _ _ _ Ht) as [_ Htn]. rewrite iupd_at_cons by assumption. split.
+    + match goal with |- context [upd_nth a i ?GG] => rewrite (iwf_upd_same a i GG x Hn eq_refl) end. assumption.
+    + eapply Forall_upd_nth_item; eauto. apply iwfi_unfold. cbn [ielems'].
+      apply IH; try assumption. eapply iwf_elems; eauto. split; assumption.
+Qed.
+
+Lemma iwf_upd_at_unuse : forall a q t x, itrail_of a q t x -> iwf a ->
+  forall G, iname' (G x) = None -> iwfi (G x) -> iwf (iupd_at a t G).
+Proof.
+  induction 1 as [a n i x Hf | a n m i x t y Hf Hm Ht IH]; intros [Hd Hall] G HG HW;
+    destruct (ifind_first _ _ _ _ Hf) as (_ & Hn & Hname).
+  - cbn [iupd_at]. split.
+    + rewrite (used_names_upd a i G x Hn), HG. rewrite (used_names_split a i x Hn) in Hd.
+      cbn [app]. eapply NoDup_remove_mid; eauto.
+    + eapply Forall_upd_nth_item; eauto.
+  - destruct (itrail_nonnil _ _ _ _ Ht) as [_ Htn]. rewrite iupd_at_cons by assumption. split.
+    + match goal with |- context [upd_nth a i ?GG] => rewrite (iwf_upd_same a i GG x Hn eq_refl) end. assumption.
+    + eapply Forall_upd_nth_item; eauto. apply iwfi_unfold. cbn [ielems'].
+      apply IH; try assumption. eapply iwf_elems; eauto. split; assumption.
+Qed.
+
+(* ---------------------------------------------------------------- mpt_config_item_reserve *)
+Definition rfresh (fuel : nat) (p' : path) (nm : list byte) (slot : nat) (arr' : list item)
+  : cres (list item * option trail) :=
+  match ident_set nm with
+  | None => Done (arr', None)
+  | Some n =>
+    let arr2 := upd_nth arr' slot (fun _ => Item (Some n) None []) in
+    if negb (plen p' =? 0) then
+      let* (sub, t) := item_reserve fuel [] p' in
+      Done (upd_nth arr2 slot (fun x => Item (iname' x) (ival' x) sub), option_map (cons slot) t)
+    else Done (arr2, Some [slot])
+  end.
+
+Definition rscan (fuel : nat) (arr : list item) (p' : path) (nm : list byte) :=
+  fix scan (l : list item) (i : nat) {struct l} : cres (list item * option trail) :=
+    match l with
+    | [] =>
+      match first_unused arr 0 with
+      | None => rfresh fuel p' nm (length arr) (arr ++ [Item None None []])
+      | Some u => rfresh fuel p' nm u (upd_nth arr u (fun x => Item None None []))
+      end
+    | x :: l' =>
+      if item_match x nm then
+        if negb (plen p' =? 0) then
+          let* (sub, t) := item_reserve fuel (ielems' x) p' in
+          Done (upd_nth arr i (fun y => Item (iname' y) (ival' y) sub), option_map (cons i) t)
+        else Done (arr, Some [i])
+      else scan l' (S i)
+    end.
+
+Lemma item_reserve_unfold fuel arr p :
+  item_reserve (S fuel) arr p =
+  match path_next p with
+  | Fail _ => Done (arr, None)
+  | MemFault => MemFault
+  | OutOfFuel => OutOfFuel
+  | Done (len, p') =>
+    let* nm := rdn (pbase p) (poff p) len in rscan fuel arr p' nm arr 0
+  end.
+Proof. reflexivity. Qed.
+
+Lemma rscan_find fuel arr p' nm l i :
+  rscan fuel arr p' nm l i =
+  match ifind nm l i with
+  | Some (j, x) =>
+    if negb (plen p' =? 0) then
+      let* (sub, t) := item_reserve fuel (ielems' x) p' in
+      Done (upd_nth arr j (fun y => Item (iname' y) (ival' y) sub), option_map (cons j) t)
+    else Done (arr, Some [j])
+  | None =>
+    match first_unused arr 0 with
+    | None => rfresh fuel p' nm (length arr) (arr ++ [Item None None []])
+    | Some u => rfresh fuel p' nm u (upd_nth arr u (fun x => Item None None []))
+    end
+  end.
+Proof.
+  revert i; induction l as [|x l IH]; intros i; [reflexivity|]. cbn [rscan ifind].
+  destruct (item_match x nm); [reflexivity|apply IH].
+Qed.
+
+Lemma upd_nth_twice {A} (l : list A) : forall s z G,
+  upd_nth (upd_nth l s (fun _ => z)) s G = upd_nth l s (fun _ => G z).
+Proof.
+  induction l as [|x l IH]; intros s z G; [destruct s; reflexivity|].
+  destruct s; cbn; [reflexivity|]. f_equal. apply IH.
+Qed.
+
+Lemma used_names_app l z : used_names (l ++ [z]) = used_names l ++ match iname' z with Some n => [n] | None => [] end.
+Proof. unfold used_names. rewrite flat_map_app. cbn. rewrite app_nil_r. reflexivity. Qed.
+
+Lemma nth_error_app_last {A} (l : list A) z : nth_error (l ++ [z]) (length l) = Some z.
+Proof. rewrite nth_error_app2 by lia. rewrite Nat.sub_diag. reflexivity. Qed.
+
+(* a slot array with an unused slot [s] that finds the same things as [a] *)
+Definition spare (a arr' : list item) (s : nat) : Prop :=
+  (exists z0, nth_error arr' s = Some z0 /\ iname' z0 = None) /\
+  (forall nm i0, ifind nm arr' i0 = ifind nm a i0) /\
+  used_names arr' = used_names a /\
+  (Forall iwfi a -> Forall iwfi arr').
+
+Lemma spare_append a : spare a (a ++ [Item None None []]) (length a).
+Proof.
+  split; [exists (Item None None []); split; [apply nth_error_app_last|reflexivity]|].
+  split; [intros nm i0; rewrite ifind_app; destruct (ifind nm a i0); reflexivity|].
+  split; [rewrite used_names_app; cbn; apply app_nil_r|].
+  intros H. apply Forall_app. split; [assumption|]. constructor; [|constructor].
+  cbn. split; [constructor|exact I].
+Qed.
+
+Lemma spare_recycle a u : first_unused a 0 = Some u -> spare a (upd_nth a u (fun _ => Item None None [])) u.
+Proof.
+  intros H. destruct (first_unused_spec _ _ _ H) as (_ & y & Hy & Hn). rewrite Nat.sub_0_r in Hy.
+  split.
+  { exists (Item None None []). split; [|reflexivity].
+    clear -Hy. revert u Hy. induction a as [|x a IH]; intros u Hy; [destruct u; discriminate|].
+    destruct u; cbn in *; [reflexivity|]. apply IH. assumption. }
+  split; [intros nm i0; apply (ifind_upd_unused a u i0 y (Item None None []) Hy Hn eq_refl)|].
+  split.
+  { rewrite (used_names_upd a u _ y Hy). cbn [iname' app]. rewrite (used_names_split a u y Hy), Hn. reflexivity. }
+  intros H'. eapply Forall_upd_nth_item; eauto. cbn. split; [constructor|exact I].
+Qed.
+
+Lemma ilook_ext a b : (forall nm, ifind nm a 0 = ifind nm b 0) -> forall k, ilook a k = ilook b k.
+Proof. intros H k. destruct k as [|n k]; [reflexivity|]. cbn. rewrite H. reflexivity. Qed.
+
+Lemma ilook_nil k : ilook [] k = Absent.
+Proof. destruct k; reflexivity. Qed.
+
+Lemma item_reserve_spec : forall ks fuel a p, pwf p -> elems p = ks -> ks <> [] ->
+  Forall name_ok ks -> plen p < fuel -> iwf a ->
+  exists a' t x, item_reserve fuel a p = Done (a', Some t) /\ iwf a' /\ itrail_of a' ks t x /\
+    forall k, k <> [] -> ilook a' k = upd_gen (ilook a) ks None k.
+Proof.
+  induction ks as [|n ks IH]; intros fuel a p Hw He Hne Hok Hfuel Hwf; [congruence|].
+  destruct fuel as [|fuel]; [lia|].
+  assert (Hz : plen p <> 0) by (intros H; apply elems_nil_iff in H; congruence).
+  destruct (path_next_spec p Hw Hz) as (e & r & p' & He' & Hnx & Hrd & Hw' & Her & _ & _ & Hlt & _).
+  rewrite He in He'. assert (Ee : e = n) by congruence. assert (Er : r = ks) by congruence.
+  rewrite Ee, Er in *. clear Ee Er He'.
+  assert (Hn1 : name_ok n) by (inversion Hok; assumption).
+  assert (Hok' : Forall name_ok ks) by (inversion Hok; assumption).
+  rewrite item_reserve_unfold, Hnx, Hrd. cbn [cbind]. rewrite rscan_find.
+  assert (Hks : plen p' = 0 <-> ks = []).
+  { rewrite <- Her. symmetry. apply elems_nil_iff. }
+  destruct (ifind n a 0) as [[j x]|] eqn:Ef.
+  - (* the element exists *)
+    destruct (ifind_first _ _ _ _ Ef) as (Ef0 & Hnth & Hname).
+    destruct (Nat.eqb_spec (plen p') 0) as [Hz'|Hz']; cbn [negb].
+    + assert (E0 : ks = []) by (apply Hks; assumption). rewrite E0 in *.
+      exists a, [j], x. split; [reflexivity|]. split; [assumption|]. split; [constructor; assumption|].
+      intros k Hk. destruct k as [|n' k']; [congruence|].
+      destruct (bytes_eqb n n') eqn:E.
+      * apply bytes_eqb_eq in E. subst n'. destruct k' as [|b k'].
+        -- unfold upd_gen. cbn. rewrite bytes_eqb_refl. cbn. rewrite Ef. reflexivity.
+        -- rewrite upd_gen_single by discriminate. reflexivity.
+      * rewrite upd_gen_diff by assumption. reflexivity.
+    + assert (Hks' : ks <> []) by (intros Hx0; apply Hz'; apply Hks; assumption).
+      destruct (IH fuel (ielems' x) p' Hw' Her Hks' Hok' ltac:(lia) (iwf_elems a j x Hwf Hnth))
+        as (sub & t' & x' & Hres & Hwfs & Htr & Hl).
+      rewrite Hres. cbn [cbind option_map].
+      set (G := fun y : item => Item (iname' y) (ival' y) sub).
+      assert (HfG : forall nm, ifind nm (upd_nth a j G) 0 = if item_match x nm then Some (0 + j, G x) else ifind nm a 0).
+      { intros nm. apply (ifind_upd_same a j 0 G n x Ef0). intros w. reflexivity. }
+      exists (upd_nth a j G), (j :: t'), x'. split; [reflexivity|]. split.
+      { destruct Hwf as [Hd Hall]. split; [rewrite (iwf_upd_same a j G x Hnth eq_refl); assumption|].
+        eapply Forall_upd_nth_item; eauto. apply iwfi_unfold. exact Hwfs. }
+      split.
+      { apply IT_cons with (G x); [|assumption|exact Htr].
+        rewrite HfG, (item_match_iff x n n Hname), bytes_eqb_refl. reflexivity. }
+      intros k Hk. destruct k as [|n' k']; [congruence|]. cbn [ilook].
+      rewrite HfG, (item_match_iff x n n' Hname).
+      destruct (bytes_eqb n n') eqn:E.
+      * apply bytes_eqb_eq in E. subst n'. cbn [G ival' ielems'].
+        destruct k' as [|b k'].
+        -- rewrite upd_gen_head by assumption. cbn [ilook]. rewrite Ef. reflexivity.
+        -- rewrite Hl by discriminate. symmetry. apply upd_gen_cons. cbn [ilook]. rewrite Ef. reflexivity.
+      * rewrite upd_gen_diff by assumption. reflexivity.
+  - (* a new or recycled slot *)
+    assert (Hsp : exists s arr', spare a arr' s /\
+              match first_unused a 0 with
+              | None => rfresh fuel p' n (length a) (a ++ [Item None None []])
+              | Some u => rfresh fuel p' n u (upd_nth a u (fun _ => Item None None []))
+              end = rfresh fuel p' n s arr').
+    { destruct (first_unused a 0) as [u|] eqn:Eu.
+      - exists u, (upd_nth a u (fun _ => Item None None [])). split; [apply spare_recycle; assumption|reflexivity].
+      - exists (length a), (a ++ [Item None None []]). split; [apply spare_append|reflexivity]. }
+    destruct Hsp as (s & arr' & ((z0 & Hz0 & Hz0n) & Hsame & Hnames & Hall') & Hfr). rewrite Hfr. clear Hfr.
+    unfold rfresh, ident_set. unfold name_ok in Hn1. destruct (Nat.ltb_spec ident_max (length n)); [lia|].
+    assert (Hnone' : ifind n arr' 0 = None) by (rewrite Hsame; assumption).
+    assert (Hnotin : ~ In n (used_names a)).
+    { intros Hi. apply in_used_names in Hi. destruct Hi as (y & Hy & Hyn).
+      eapply (ifind_none n a 0 Ef); eauto. }
+    (* the finished slot, with whatever sub-array it gets *)
+    assert (Hfin : forall sub, iwf sub ->
+      let a' := upd_nth arr' s (fun _ => Item (Some n) None sub) in
+      (forall nm, ifind nm a' 0 = if bytes_eqb n nm then Some (0 + s, Item (Some n) None sub) else ifind nm a 0) /\ iwf a').
+    { intros sub Hsub a'. split.
+      - intros nm. unfold a'. rewrite (ifind_upd_fresh arr' s 0 z0 (Item (Some n) None sub) n Hz0 Hz0n eq_refl Hnone' nm), Hsame. reflexivity.
+      - destruct Hwf as [Hd Hall]. split.
+        + unfold a'. rewrite (used_names_upd arr' s _ z0 Hz0). cbn [iname'].
+          rewrite <- Hnames, (used_names_split arr' s z0 Hz0), Hz0n in Hd, Hnotin. cbn [app] in Hd, Hnotin.
+          apply NoDup_insert_mid; assumption.
+        + unfold a'. eapply Forall_upd_nth_item; eauto. apply iwfi_unfold. exact Hsub. }
+    assert (HLn : forall k', ilook a (n :: k') = Absent) by (intros k'; cbn; rewrite Ef; reflexivity).
+    destruct (Nat.eqb_spec (plen p') 0) as [Hz'|Hz']; cbn [negb].
+    + assert (E0 : ks = []) by (apply Hks; assumption). rewrite E0 in *.
+      destruct (Hfin [] iwf_nil) as (Hf' & Hwf').
+      eexists _, [s], _. split; [reflexivity|]. split; [exact Hwf'|]. split.
+      { constructor. rewrite Hf', bytes_eqb_refl. reflexivity. }
+      intros k Hk. destruct k as [|n' k']; [congruence|]. cbn [ilook]. rewrite Hf'.
+      destruct (bytes_eqb n n') eqn:E.
+      * apply bytes_eqb_eq in E. subst n'. cbn [ival' ielems']. destruct k' as [|b k'].
+        -- unfold upd_gen. cbn. rewrite bytes_eqb_refl. cbn. rewrite Ef. reflexivity.
+        -- rewrite upd_gen_single by discriminate. rewrite HLn. apply ilook_nil.
+      * rewrite upd_gen_diff by assumption. reflexivity.
+    + assert (Hks' : ks <> []) by (intros Hx0; apply Hz'; apply Hks; assumption).
+      destruct (IH fuel [] p' Hw' Her Hks' Hok' ltac:(lia) iwf_nil) as (sub & t' & x' & Hres & Hwfs & Htr & Hl).
+      rewrite Hres. cbn [cbind option_map]. rewrite upd_nth_twice. cbn [iname' ival'].
+      destruct (Hfin sub Hwfs) as (Hf' & Hwf').
+      eexists _, (s :: t'), x'. split; [reflexivity|]. split; [exact Hwf'|]. split.
+      { eapply IT_cons; [rewrite Hf', bytes_eqb_refl; reflexivity|assumption|exact Htr]. }
+      intros k Hk. destruct k as [|n' k']; [congruence|]. cbn [ilook]. rewrite Hf'.
+      destruct (bytes_eqb n n') eqn:E.
+      * apply bytes_eqb_eq in E. subst n'. cbn [ival' ielems']. destruct k' as [|b k'].
+        -- rewrite upd_gen_head by assumption. rewrite HLn. reflexivity.
+        -- rewrite Hl by discriminate. symmetry. apply upd_gen_cons. rewrite HLn. symmetry. apply ilook_nil.
+      * rewrite upd_gen_diff by assumption. reflexivity.
 Qed.
